@@ -105,8 +105,8 @@ class Runner(object):
 
     def _collect(self):
         p = self.p
-        if self.sock is None and 'sock' in s2.LAST and p.dul_socket is s2.LAST['sock']:
-            self.sock = p.dul_socket
+        if self.sock is None and p.dul_socket is not None:
+            self.sock = p.dul_socket          # the requester's transport, once AE-1 has opened it
         new_inds = p.drain_user()
         if self.sock is not None:
             for b in self.sock.sent[self._sent_seen:]:
